@@ -259,6 +259,18 @@ func reportObl(rule, fn, construct, pos, what, status string) report.Obligation 
 // Registry maps property ids to their check functions.
 var Registry = map[string]func(*Ctx){}
 
+// Extras: rules added to a property's check from separate files (run after the
+// property's own check function, in the same context and run).
+var Extras = map[string][]func(*Ctx){}
+
+// RunCheck runs the check of a property with its extra rules.
+func RunCheck(id string, c *Ctx) {
+	Registry[id](c)
+	for _, f := range Extras[id] {
+		f(c)
+	}
+}
+
 // Meta holds the static description of each property's check.
 type Meta struct {
 	Explanation string
